@@ -834,6 +834,8 @@ func (f *filterQuery) Select(t iterator) NodeNavigator {
 
 func (f *filterQuery) Evaluate(t iterator) interface{} {
 	f.Input.Evaluate(t)
+	f.posit = 0
+	f.positmap = nil
 	return f
 }
 
@@ -959,6 +961,7 @@ func (g *groupQuery) Select(t iterator) NodeNavigator {
 }
 
 func (g *groupQuery) Evaluate(t iterator) interface{} {
+	g.posit = 0
 	return g.Input.Evaluate(t)
 }
 
